@@ -184,4 +184,40 @@ theorem qinv_run (cap : Nat) (ls : List Lbl) : ∀ (s s' : St), QInv s → runL 
       exact ih s1 s' (qinv_fire cap s s1 l h hf) hr
     · cases hr
 
+theorem foreign_false_all (tr : List Ev) : ∀ (m : Mon), (tr.foldl Mon.step m).foreign = false →
+    m.foreign = false ∧ ∀ w it, (Ev.start w it ∈ tr ∨ Ev.stop w it ∈ tr) → w = Thread.consumer := by
+  induction tr with
+  | nil => intro m h; exact ⟨h, by simp⟩
+  | cons e tr ih =>
+    intro m h
+    simp only [List.foldl_cons] at h
+    obtain ⟨hm, hall⟩ := ih _ h
+    cases e with
+    | enq w c it =>
+      simp only [Mon.step] at hm
+      refine ⟨hm, ?_⟩
+      intro w' it' hmem
+      apply hall w' it'
+      rcases hmem with hmem | hmem <;> simp at hmem
+      · left; exact hmem
+      · right; exact hmem
+    | start w it =>
+      simp only [Mon.step, Bool.or_eq_false_iff, bne_eq_false_iff_eq] at hm
+      refine ⟨hm.1, ?_⟩
+      intro w' it' hmem
+      rcases hmem with hmem | hmem <;> simp at hmem
+      · rcases hmem with ⟨rfl, _⟩ | hmem
+        · exact hm.2
+        · exact hall w' it' (Or.inl hmem)
+      · exact hall w' it' (Or.inr hmem)
+    | stop w it =>
+      simp only [Mon.step, Bool.or_eq_false_iff, bne_eq_false_iff_eq] at hm
+      refine ⟨hm.1, ?_⟩
+      intro w' it' hmem
+      rcases hmem with hmem | hmem <;> simp at hmem
+      · exact hall w' it' (Or.inl hmem)
+      · rcases hmem with ⟨rfl, _⟩ | hmem
+        · exact hm.2
+        · exact hall w' it' (Or.inr hmem)
+
 end Cell2v.Loop
